@@ -697,7 +697,8 @@ theorem decode_encode_file (P : Profile) (hwf : ProfileWF P = true) (arch : Endi
       (decodeSpec P o .full g (bs ++ tail) stop).1.success ∧
       (decodeSpec P o .full g (bs ++ tail) stop).1.st.glob = G ∧
       (decodeSpec P o .full g (bs ++ tail) stop).1.st.file = some F' ∧
-      F'.sameContent { F with crc := C } := by
+      F'.sameContent { F with crc := C } ∧
+      ((H.size = headerSizeNoCRC ∨ H.size = headerSizeCRC) ∧ H.dtype = fitTag ∧ H.proto = f.hdr.proto) := by
   -- unpack Encode
   unfold encode at h
   cases hia : P.initAns (fileTypeOf f) with
@@ -874,7 +875,8 @@ theorem decode_encode_file (P : Profile) (hwf : ProfileWF P = true) (arch : Endi
                     (serialize (.defn d0 false :: .data d0.localT parts0 [] :: restItems)).length ++
                     serialize (.defn d0 false :: .data d0.localT parts0 [] :: restItems))).toNat = C
               obtain ⟨F', hF', hsame, hgl⟩ := finalize_content o (okOut { st' with crc := 0#16, file := st'.file.map fun x => { x with crc := C } }) { fg'.1 with crc := C } (by simp only [okOut, hfile', Option.map_some])
-              refine ⟨i, H, C, fg'.1, fg'.2, F', rfl, ?_, finalize_okOut_success o _, ?_, hF', hsame⟩
+              refine ⟨i, H, C, fg'.1, fg'.2, F', rfl, ?_, finalize_okOut_success o _, ?_, hF', hsame,
+                ⟨by rw [hH]; exact k.size_cases, by rw [hH]; rfl, by rw [hH]; rfl⟩⟩
               · rw [hf3] at hadd
                 have e : (wireFile P (P.containers.getD i default) f).fileId = wireMsg pm0 [f.fileId] f.fileId := by
                   show wire1 P f.fileId = _
